@@ -336,6 +336,7 @@ def _run_rest(ctx, col, pkg, res, rel, fwd, where, rd, pm):
     _masked_values_excluded_by_selection(ctx)
     _legal_dims_table(ctx)
     _check_input_table(ctx)
+    _constructor_and_precision_clauses(ctx)
     plumbing(ctx, "S3")
     return dict(
         explanation=(
@@ -495,6 +496,55 @@ def _forward_table(ctx: Ctx, fwd, rel: str) -> bool:
             f"{_show(bad[4])}: the output depends on masked positions, is normalised over another axis than it is reduced over, or is not "
             f"finite") if bad else "", rel, fwd.line, sample=dict(rows=n_rows))
     return True
+
+
+def _constructor_and_precision_clauses(ctx: Ctx):
+    """S8: (a) MultiHeadedAttention inserts a head axis just before the feature axis of the projected tensors; a wrapped attention whose
+    `dim` counts from the END then addresses another axis of the per-head tensors (softmax over the heads or over a singleton). The
+    constructor must refuse it: some `raise` of __init__ is reached exactly for negative `dim` (its guards evaluated for dim = -3 .. 2).
+    (b) the attention weights are normalised in the precision of the scores: a softmax forced to a fixed dtype (single precision) makes
+    double-precision weights sum to one only to 1e-7 (outputs leave the convex hull of the values) and hands half-precision modules a
+    float32 tensor their output projection refuses."""
+    from sa.inteval import NotEvaluable, int_eval
+    col, pkg = ctx.col, ctx.pkg
+    init = pkg.func(f"{MOD}::MultiHeadedAttention.__init__")
+    rel = init.module.relname
+    pm = parent_map(init.node)
+    sha = next((p_.name for p_ in init.params if "head_attention" in p_.name or "attention" in p_.name), None)
+    if sha is None:
+        raise AnalysisError("C20: MultiHeadedAttention.__init__ has no wrapped-attention formal")
+    refusals = []
+    for n in own_nodes(init.node):
+        if not isinstance(n, ast.Raise):
+            continue
+        gs = guards_of(pm, n)
+        if not any(f"{sha}.dim" in u(t_) for t_, _ in gs):
+            continue
+        try:
+            reach = {}
+            for d_ in (-3, -2, -1, 0, 1, 2):
+                def leaf(x, d_=d_):
+                    if isinstance(x, ast.Attribute) and u(x) == f"{sha}.dim":
+                        return d_
+                    return None
+                reach[d_] = all(bool(int_eval(t_, {"__leaf__": leaf})) == p_ for t_, p_ in gs if f"{sha}.dim" in u(t_))
+            refusals.append(reach)
+        except NotEvaluable:
+            continue
+    ok = any(all(r_[d_] == (d_ < 0) for d_ in r_) for r_ in refusals)
+    col.ob("G8", "S8", f"{rel}::MultiHeadedAttention.__init__::negative-dim-of-the-wrapped-attention-is-refused", ok,
+           f"no `raise` of the constructor is reached exactly for a wrapped attention with a negative `dim` (refusals found: {refusals}): counted from the end, "
+           f"`dim` addresses another axis once the head axis is inserted - the softmax runs over the heads or over a singleton axis", rel, init.line,
+           sample=len(refusals))
+    fwd = pkg.func(f"{MOD}::GlobalSoftAttention.forward")
+    sms = [c for c in own_calls(fwd.node) if call_name(c).split(".")[-1] == "softmax"]
+    col.floor("softmax_sites", len(sms), 1)
+    forced = [c for c in sms if any(k.arg == "dtype" and not (isinstance(k.value, ast.Attribute) and k.value.attr == "dtype") and not
+                                    (isinstance(k.value, ast.Constant) and k.value.value is None) for k in c.keywords)]
+    col.ob("G28", "S8", f"{rel}::GlobalSoftAttention.forward::weights-in-the-precision-of-the-scores", not forced,
+           (f"`{u(forced[0])[:80]}` forces the dtype of the attention weights: for double-precision inputs they sum to one only to single precision (the "
+            f"output leaves the convex hull of the values), and half-precision modules receive float32 weights") if forced else "", rel,
+           forced[0].lineno if forced else fwd.line)
 
 
 def _check_input_table(ctx: Ctx):
